@@ -431,7 +431,6 @@ ROTTEN_MANAGERS = {
     "push_char": "writes one character at given coordinates for push_cursor",
     "process_char": "backspace: one step left of the current cell",
     "linefeed": "keeps the column; the wrap stays pending on the new row as on xterm",
-    "carriage_return": "column 0: the flag is re-decided by the next character (x + 1 < width)",
     "resize": "clamps the cursor into the new grid",
 }
 
@@ -1021,6 +1020,7 @@ from ..mutants import Mut  # noqa: E402
 
 _V = "urwid/vterm.py"
 MUTANTS = [
+    Mut("cr-keeps-pending-wrap", "urwid/vterm.py", "TermCanvas.carriage_return", "        self.is_rotten_cursor = False  # column 0 is not a pending wrap, also on a terminal one column wide\n", "", "PASS|vterm.TermCanvas.carriage_return|carriage_return: cursor placed with the pending wrap kept"),
     Mut("tab-blanks-the-cursor-cell", "urwid/vterm.py", "TermCanvas.tab", "        while x < self.width - 1:\n            x += 1\n", "        while x < self.width - 1:\n            self.set_char(b\" \")\n            x += 1\n", "WRITER|vterm.TermCanvas.tab|tab: cell writer set_char in a pure movement"),
     Mut("charset-designation-in-place", _V, "TermCharset.define", "        self._g = [*self._g[:g], charset, *self._g[g + 1 :]]\n", "        self._g[g] = charset\n", "ALIAS|vterm.TermCharset.define|TermCharset: container edited in place although instances are shallow-copied"),
     Mut("scrollback-cursor-closed-bound", _V, "TermCanvas.set_term_cursor", "self.scrolling_up < self.height - y:", "y + self.scrolling_up <= self.height:", "POSBOUND|vterm.TermCanvas.set_term_cursor|canvas cursor row not shown inside the canvas"),
